@@ -365,7 +365,8 @@ func runMore(a *Analyzer, r *Results) {
 				default:
 					continue
 				}
-				ok2 := mustReach(in, func(i2 ssa.Instruction) bool {
+				// (a helper that only builds the message hands it back to its caller: judged there)
+				ok2, _ := mustReachAfterSuccess(a, call, func(i2 ssa.Instruction) bool {
 					// the send must be unconditional once its helper is entered (no "already disposed" / "muted" switch in between)
 					if callMustReach(a, i2, "interfaces.Communication", "SendConsensusMessage", 0) {
 						return true
